@@ -22,13 +22,22 @@ Definition note_scan (sd : list path * list path) (o : wop) : list path * list p
 Definition K_open_then_scan (sd : list path * list path) : bool :=
   match snd sd with [] => false | _ => true end.
 
+(** inside that class the index can hold two definitions of one file on the SAME line (the
+    old and the new version's): [get_definition_at_line] then returns whichever the hash map
+    yields first, so the implementation's answers are not a function of the history any more
+    (observed: 7 / 5 of 12 runs of one case). The dump is still compared; the answers are
+    compared only when no such pair exists. *)
+Definition ambiguous_lines (s : index) : bool :=
+  existsb (fun d1 => existsb (fun d2 => path_eqb (d_file d1) (d_file d2) && (d_line d1 =? d_line d2)
+                                        && negb (String.eqb (d_name d1) (d_name d2))) (defs s)) (defs s).
+
 Fixpoint run_case10 (s : index) (sd : list path * list path) (i : N) (steps : list step6) : list (N * N) :=
   match steps with
   | [] => []
   | Op6 o :: r => run_case10 (apply_wop s o) (note_scan sd o) (i + 1) r
   | Both6 qs live fresh :: r =>
       let '(m, s') := answer_all s qs in
-      let c := bit (negb (dump_ok s (sn_dump live) && list_eqb ans_eqb m (sn_answers live))) 1
+      let c := bit (negb (dump_ok s (sn_dump live) && (ambiguous_lines s || list_eqb ans_eqb m (sn_answers live)))) 1
                + bit (negb (both_ok live fresh)) 2
                + bit (K_open_then_scan sd) 16 in
       (if c =? 0 then [] else [(i, c)]) ++ run_case10 s' sd (i + 1) r
